@@ -108,7 +108,7 @@ fn queries2(c: &mut Ctx, m: &PolyModel2, nq: usize) -> Vec<(Point2, &'static str
 }
 
 fn run_curve2(c: &mut Ctx) {
-    let max_n = if c.thorough && c.rng.chance(0.03) { 5000 } else if c.rng.chance(0.1) { 2000 } else { 300 };
+    let max_n = if c.tiny { 40 } else if c.thorough && c.rng.chance(0.03) { 5000 } else if c.rng.chance(0.1) { 2000 } else { 300 };
     let case = gen::curve_case2(&mut c.rng, max_n);
     c.family(&format!("curve2/{}/{}", case.fam, case.closure));
     c.set_case(case.json());
@@ -121,7 +121,7 @@ fn run_curve2(c: &mut Ctx) {
     let n = m.v.len();
     let eps = 1e-9 * m.extent() + 1e3 * U * m.offset();
     let lens = curve.lengths().clone();
-    let nq = if c.thorough { 120 } else { 60 };
+    let nq = if c.tiny { 6 } else if c.thorough { 120 } else { 60 };
     for (q, kind) in queries2(c, &m, nq) {
         let (bd, be) = oracle::brute_poly2(&m.v, &q);
         let r = guard(|| {
@@ -160,7 +160,7 @@ fn run_curve2(c: &mut Ctx) {
 }
 
 fn run_curve3(c: &mut Ctx) {
-    let max_n = if c.thorough && c.rng.chance(0.03) { 5000 } else if c.rng.chance(0.1) { 2000 } else { 300 };
+    let max_n = if c.tiny { 40 } else if c.thorough && c.rng.chance(0.03) { 5000 } else if c.rng.chance(0.1) { 2000 } else { 300 };
     let case = gen::curve_case3(&mut c.rng, max_n);
     c.family(&format!("curve3/{}", case.fam));
     c.set_case(case.json());
@@ -173,7 +173,7 @@ fn run_curve3(c: &mut Ctx) {
     let n = m.v.len();
     let ext = m.extent().max(1e-300);
     let eps = 1e-9 * ext + 1e3 * U * m.offset();
-    let nq = if c.thorough { 100 } else { 50 };
+    let nq = if c.tiny { 6 } else if c.thorough { 100 } else { 50 };
     for k in 0..nq {
         let (q, kind): (Point3, &str) = {
             let r = &mut c.rng;
@@ -251,7 +251,9 @@ fn nested_shells(r: &mut crate::rng::Rng) -> RawMesh {
 }
 
 fn run_mesh(c: &mut Ctx) {
-    let max_faces = if c.thorough && c.rng.chance(0.01) {
+    let max_faces = if c.tiny {
+        40
+    } else if c.thorough && c.rng.chance(0.01) {
         50_000
     } else if c.rng.chance(0.05) {
         5000
@@ -285,7 +287,7 @@ fn run_mesh(c: &mut Ctx) {
     let ext = raw.extent().max(1e-300);
     let eps = 1e-9 * ext + 1e3 * U * raw.offset_norm();
     let nf = f.len();
-    let budget = if c.thorough { 4_000_000 } else { 400_000 };
+    let budget = if c.tiny { 2_000 } else if c.thorough { 4_000_000 } else { 400_000 };
     let nq = (budget / nf.max(1)).clamp(8, 80);
     let centroid = v.iter().fold(Vector3::zeros(), |a, p| a + p.coords) / v.len() as f64;
 
